@@ -2,10 +2,10 @@
  *
  * B groups only: the real map code (map.c on top of rbtree.c and bintree.c) is executed on
  * CONCRETE operation scripts; a reference model (present / stored key pointer / stored value
- * pointer per key) is kept in plain arrays and compared with the map after EVERY operation:
- * size, find of every key, and a walk of the underlying red-black tree (parent links, strict
- * key order, root black, no red-red edge, equal black count on every root-to-NULL path, every
- * tree node is a live node the map allocated).
+ * pointer per key) is kept in plain arrays and compared with the map after EVERY state-changing
+ * operation: size, find of every key, and a walk of the underlying red-black tree (parent links,
+ * strict key order, root black, no red-red edge, equal black count on every root-to-NULL path,
+ * every tree node is a live node the map allocated and carries the stored pointers).
  *
  * Allocation: map.c's calls of malloc/free are redirected (token-wise, `#define malloc vf_malloc`
  * around the three #include lines only) to the accounting allocator below.  It
@@ -14,10 +14,22 @@
  *   - records every block handed out, asserts that free() is only called on live blocks of the
  *     map (no double free, no foreign free), counts live blocks (leak audit),
  *   - VF_ARENA: hands out separate static node objects (all pointers concrete; a freed node is
- *     poisoned, its links point to a sentinel, and the poison is re-checked before reuse and at
- *     the end of every script, so that a write after free is seen);
+ *     poisoned, its links point to a sentinel, and the poison is re-checked before reuse and in
+ *     every audit, so that a write after free is seen; a read of the links after free leads to
+ *     the sentinel, which is no node of the map and trips the checks);
  *     without VF_ARENA: forwards to the real malloc/free (CBMC's model with its
  *     deallocated-object checks and --memory-leak-check; libc + ASan in the native replay).
+ *
+ * Script enumeration (VF_ARENA groups).  Scripts are explored as a tree: a node of the tree is
+ * the map state after a sequence of STATE-CHANGING operations (insert of an absent key, erase of
+ * a present key); the state (all arena nodes, the map object, the model, the allocator) is saved
+ * by value before a child is explored and restored afterwards, which is exact because every
+ * pointer in it is the address of a static object.  At every node every operation of the
+ * alphabet is executed: the state-changing ones lead to the children (full check after each),
+ * the others (insert of a present key through either key object, erase of an absent key, find)
+ * are checked for their result AND for leaving the complete saved state bit-for-bit untouched,
+ * so a script containing them behaves as the script without them.  At every node the map is
+ * finally cleared (callback audit, leak audit, reuse) and the state restored.
  *
  * The container-of casts of bintree.c / rbtree.c are normalised in the scratch copy (vflib/prep.py).
  */
@@ -34,34 +46,47 @@ static void vf_free(void * p);
 #undef malloc
 #undef free
 
-/* checks are executed by the thousand: natively only failures are printed */
-#ifdef VF_NATIVE
-#define MA(c, msg) do { if (!(c)) { VF_ASSERT(0, msg); } } while (0)
-#else
 #define MA(c, msg) VF_ASSERT(c, msg)
-#endif
 
 #ifndef VF_NK
-#define VF_NK 3                    /* keys used by the scripts */
+#define VF_NK 3                    /* number of distinct keys in use */
 #endif
 #define VF_NKMAX 6
 static int K[VF_NKMAX]  = { 0, 1, 2, 3, 4, 5 };     /* key objects */
 static int K2[VF_NKMAX] = { 0, 1, 2, 3, 4, 5 };     /* equal keys at other addresses */
 static int P[VF_NKMAX]  = { 0, 1, 2, 3, 4, 5 };     /* probes for find / erase: never stored */
-static int V[16];                                   /* value objects: operation t uses &V[t] */
+static int V[16];                                   /* value objects */
 static int vf_junk;
 static int vf_cmp_cookie, vf_clr_cookie;
+static cstl_map_t vf_m;                             /* the map under test */
+
+/* the compare callback dereferences pointers it gets from the library: all checks stay on */
+static int vf_cmp(const void * a, const void * b, void * p)
+{
+    MA(p == &vf_cmp_cookie, "map: the compare callback receives the private pointer given to init");
+    return *(const int *)a - *(const int *)b;
+}
+
+/* From here on the harness dereferences only addresses it knows (static objects, or blocks it
+ * recorded itself); library pointers are only COMPARED with known addresses.  CBMC's automatic
+ * pointer checks are therefore switched off for the harness text (they stay on for bintree.c,
+ * rbtree.c, map.c and vf_cmp above); this makes symbolic execution about four times faster. */
+#ifndef VF_NATIVE
+#pragma CPROVER check push
+#pragma CPROVER check disable "pointer"
+#pragma CPROVER check disable "pointer-primitive"
+#pragma CPROVER check disable "signed-overflow"
+#endif
 
 /* ------------------------------------------------------------------ accounting allocator */
-#define VF_NBLK 12
 static int vf_fail_at = -1;        /* number of the malloc call that fails (-1: none) */
-static int vf_mallocs, vf_frees;   /* calls so far in this script */
+static int vf_mallocs, vf_frees, vf_failed;   /* calls so far in this script */
 static int vf_live_n;              /* blocks handed out and not yet freed */
 static int vf_last_blk = -1, vf_last_freed = -1;
-static int vf_live[VF_NBLK];
 #ifdef VF_ARENA
-static struct cstl_map_node vf_s0, vf_s1, vf_s2, vf_s3, vf_s4, vf_s5, vf_s6, vf_s7, vf_s8, vf_s9, vf_s10, vf_s11;
-static struct cstl_map_node * const vf_blk[VF_NBLK] = { &vf_s0, &vf_s1, &vf_s2, &vf_s3, &vf_s4, &vf_s5, &vf_s6, &vf_s7, &vf_s8, &vf_s9, &vf_s10, &vf_s11 };
+#define VF_NBLK 6
+static struct cstl_map_node vf_s0, vf_s1, vf_s2, vf_s3, vf_s4, vf_s5;
+static struct cstl_map_node * const vf_blk[VF_NBLK] = { &vf_s0, &vf_s1, &vf_s2, &vf_s3, &vf_s4, &vf_s5 };
 static int vf_used[VF_NBLK];
 static struct cstl_bintree_node vf_poison;   /* sentinel: the links of a freed node point here */
 static void vf_poison_blk(int k)
@@ -72,18 +97,22 @@ static void vf_poison_blk(int k)
 static int vf_is_poison(int k)
 {
     return vf_blk[k]->key == NULL && vf_blk[k]->val == NULL && vf_blk[k]->n.n.p == &vf_poison &&
-           vf_blk[k]->n.n.l == &vf_poison && vf_blk[k]->n.n.r == &vf_poison;
+           vf_blk[k]->n.n.l == &vf_poison && vf_blk[k]->n.n.r == &vf_poison &&
+           vf_poison.p == NULL && vf_poison.l == NULL && vf_poison.r == NULL;
 }
 #else
+#define VF_NBLK 12
 static struct cstl_map_node * vf_blk[VF_NBLK];
 static int vf_nblk;
 #endif
+static int vf_live[VF_NBLK];
 
 static void * vf_malloc(size_t n)
 {
     int k;
     MA(n == sizeof(struct cstl_map_node), "map: every allocation is exactly one map node");
     if (vf_mallocs++ == vf_fail_at) {
+        vf_failed++;
         return NULL;
     }
 #ifdef VF_ARENA
@@ -137,25 +166,29 @@ static void * vf_sval[VF_NKMAX];            /* the value pointer stored with it 
 static int vf_nodeof[VF_NKMAX];             /* ghost: block that carries the entry */
 static int vf_max_size;
 
-static int vf_cmp(const void * a, const void * b, void * p)
-{
-    MA(p == &vf_cmp_cookie, "map: the compare callback receives the private pointer given to init");
-    return *(const int *)a - *(const int *)b;
-}
-
-static void vf_reset(cstl_map_t * m)
+static void vf_reset(void)
 {
     int k;
     for (k = 0; k < VF_NKMAX; k++) { vf_present[k] = 0; vf_skey[k] = NULL; vf_sval[k] = NULL; vf_nodeof[k] = -1; }
     MA(vf_live_n == 0, "harness: previous script left nothing allocated");
-    vf_mallocs = vf_frees = 0;
+    vf_mallocs = vf_frees = vf_failed = 0;
     vf_last_blk = vf_last_freed = -1;
     vf_fail_at = -1;
 #ifndef VF_ARENA
     for (k = 0; k < VF_NBLK; k++) { vf_live[k] = 0; vf_blk[k] = NULL; }
     vf_nblk = 0;
 #endif
-    cstl_map_init(m, vf_cmp, &vf_cmp_cookie);
+    cstl_map_init(&vf_m, vf_cmp, &vf_cmp_cookie);
+}
+
+/* which key object is this?  (compared, never dereferenced) */
+static int vf_key_index(const void * key)
+{
+    int j;
+    for (j = 0; j < VF_NKMAX; j++) {
+        if (key == (const void *)&K[j] || key == (const void *)&K2[j]) return j;
+    }
+    return -1;
 }
 
 /* which live block contains this tree node? */
@@ -181,12 +214,27 @@ static int vf_blacks_to_root(int k, int n)
     return cnt;
 }
 
-/* in-order walk of m->t.t (iterative, by the parent links which are validated on the way) */
-static void vf_check_tree(const cstl_map_t * m, int n)
+/* descend along left links from block cur (validating them); -1 on a broken link */
+static int vf_leftmost(int cur, int n)
 {
-    const struct cstl_bintree_node * root = m->t.t.root;
+    int steps;
+    for (steps = 0; steps <= n && vf_blk[cur]->n.n.l != NULL; steps++) {
+        const int c = vf_blk_of(vf_blk[cur]->n.n.l);
+        MA(c >= 0, "map tree: every child is a live node allocated by the map");
+        if (c < 0) return -1;
+        MA(vf_blk[c]->n.n.p == &vf_blk[cur]->n.n, "map tree: parent link of a left child points back");
+        cur = c;
+    }
+    MA(vf_blk[cur]->n.n.l == NULL, "map tree: left spine no longer than size");
+    return cur;
+}
+
+/* in-order walk of vf_m.t.t (iterative, along links that are validated on the way) */
+static void vf_check_tree(int n)
+{
+    const struct cstl_bintree_node * root = vf_m.t.t.root;
     int cur, cnt = 0, prevkey = -1, bh = -1, steps;
-    MA(m->t.t.size == (size_t)n, "map tree: size field equals the number of entries");
+    MA(vf_m.t.t.size == (size_t)n, "map tree: size field equals the number of entries");
     if (n == 0) {
         MA(root == NULL, "map tree: empty map has no root");
         return;
@@ -198,25 +246,15 @@ static void vf_check_tree(const cstl_map_t * m, int n)
     if (cur < 0) return;
     MA(vf_blk[cur]->n.n.p == NULL, "map tree: root has no parent");
     MA(vf_blk[cur]->n.c == CSTL_RBTREE_COLOR_B, "map tree: root is black");
-    /* leftmost */
-    for (steps = 0; steps <= n && vf_blk[cur]->n.n.l != NULL; steps++) {
-        int c = vf_blk_of(vf_blk[cur]->n.n.l);
-        MA(c >= 0, "map tree: every child is a live node allocated by the map");
-        if (c < 0) return;
-        MA(vf_blk[c]->n.n.p == &vf_blk[cur]->n.n, "map tree: parent link of a left child points back");
-        cur = c;
-    }
-    MA(vf_blk[cur]->n.n.l == NULL, "map tree: left spine no longer than size");
+    cur = vf_leftmost(cur, n);
     while (cur >= 0 && cnt <= n) {
         const struct cstl_map_node * x = vf_blk[cur];
         int kv, lc = -1, rc = -1;
         cnt++;
         /* the entry */
-        MA(x->key != NULL, "map tree: node carries a key");
-        if (x->key == NULL) return;
-        kv = *(const int *)x->key;
-        MA(kv >= 0 && kv < VF_NKMAX && vf_present[kv], "map tree: node key is a key of the model");
-        if (!(kv >= 0 && kv < VF_NKMAX)) return;
+        kv = vf_key_index(x->key);
+        MA(kv >= 0 && vf_present[kv], "map tree: node key is a key of the model");
+        if (kv < 0) return;
         MA(vf_nodeof[kv] == cur && x->key == vf_skey[kv] && x->val == vf_sval[kv], "map tree: node holds the stored key and value pointers of its entry");
         MA(kv > prevkey, "map tree: keys strictly ascending in order (one entry per key)");
         prevkey = kv;
@@ -243,15 +281,7 @@ static void vf_check_tree(const cstl_map_t * m, int n)
         }
         /* successor */
         if (rc >= 0) {
-            cur = rc;
-            for (steps = 0; steps <= n && vf_blk[cur]->n.n.l != NULL; steps++) {
-                int c = vf_blk_of(vf_blk[cur]->n.n.l);
-                MA(c >= 0, "map tree: every child is a live node allocated by the map");
-                if (c < 0) return;
-                MA(vf_blk[c]->n.n.p == &vf_blk[cur]->n.n, "map tree: parent link of a left child points back");
-                cur = c;
-            }
-            MA(vf_blk[cur]->n.n.l == NULL, "map tree: left spine no longer than size");
+            cur = vf_leftmost(rc, n);
         } else {
             int c = cur, up = -1;
             for (steps = 0; steps <= n; steps++) {
@@ -271,39 +301,52 @@ static void vf_check_tree(const cstl_map_t * m, int n)
     MA(cur < 0 && cnt == n, "map tree: the walk visits exactly size nodes");
 }
 
-static void vf_check_find(const cstl_map_t * m, int i, const void * probe)
+static void vf_check_find(int i, const void * probe)
 {
     cstl_map_iterator_t it;
     it._ = &vf_junk; it.key = &vf_junk; it.val = &vf_junk;
-    cstl_map_find(m, probe, &it);
+    cstl_map_find(&vf_m, probe, &it);
     if (vf_present[i]) {
-        MA(!cstl_map_iterator_eq(&it, cstl_map_iterator_end(m)), "find: a present key is found");
+        MA(!cstl_map_iterator_eq(&it, cstl_map_iterator_end(&vf_m)), "find: a present key is found");
         MA(it.key == vf_skey[i] && it.val == vf_sval[i], "find: yields the stored key and value pointers");
         MA(it._ == (void *)vf_blk[vf_nodeof[i]], "find: the iterator refers to the node of the entry");
     } else {
-        MA(cstl_map_iterator_eq(&it, cstl_map_iterator_end(m)), "find: an absent key yields the end iterator");
+        MA(cstl_map_iterator_eq(&it, cstl_map_iterator_end(&vf_m)), "find: an absent key yields the end iterator");
         MA(it.key == NULL && it.val == NULL, "find: the end iterator carries no key or value");
     }
 }
 
-static void vf_check(const cstl_map_t * m)
+static int vf_count(void)
 {
     int i, n = 0;
     for (i = 0; i < VF_NKMAX; i++) n += vf_present[i];
+    return n;
+}
+
+static void vf_check(void)
+{
+    const int n = vf_count();
+    int i;
     if (n > vf_max_size) vf_max_size = n;
-    MA(cstl_map_size(m) == (size_t)n, "map: size equals the number of keys inserted and not erased");
+    MA(cstl_map_size(&vf_m) == (size_t)n, "map: size equals the number of keys inserted and not erased");
     MA(vf_live_n == n, "map: exactly one allocated node per entry");
     for (i = 0; i < VF_NK; i++) {
-        vf_check_find(m, i, &P[i]);
+        vf_check_find(i, &P[i]);
     }
-    vf_check_tree(m, n);
+    vf_check_tree(n);
 }
 
 /* ------------------------------------------------------------------ operations with their postconditions */
 enum { OP_INS = 0, OP_INS2 = 1, OP_ERASE = 2, OP_ERASE_IT = 3, OP_FIND = 4, OP_KINDS = 5 };
 
-/* returns 0 when the operation is not applicable (erase by iterator of an absent key) */
-static int vf_op(cstl_map_t * m, int kind, int i, int t, int use_it)
+/* does this operation change the abstract state? */
+static int vf_changing(int kind, int i)
+{
+    return ((kind == OP_INS || kind == OP_INS2) && !vf_present[i]) || ((kind == OP_ERASE || kind == OP_ERASE_IT) && vf_present[i]);
+}
+
+/* one operation, its result checked against the model, the model updated; `check`: full comparison afterwards */
+static void vf_op(int kind, int i, int vi, int use_it, int check)
 {
     cstl_map_iterator_t it;
     int r;
@@ -311,9 +354,9 @@ static int vf_op(cstl_map_t * m, int kind, int i, int t, int use_it)
     it._ = &vf_junk; it.key = &vf_junk; it.val = &vf_junk;
     if (kind == OP_INS || kind == OP_INS2) {
         const void * key = kind == OP_INS ? (const void *)&K[i] : (const void *)&K2[i];
-        void * val = &V[t];
+        void * val = &V[vi];
         const int fails = !vf_present[i] && vf_mallocs == vf_fail_at;
-        r = cstl_map_insert(m, key, val, use_it ? &it : NULL);
+        r = cstl_map_insert(&vf_m, key, val, use_it ? &it : NULL);
         MA(vf_frees == f0, "insert: releases nothing");
         if (vf_present[i]) {
             MA(r == 1, "insert: an existing key returns 1");
@@ -326,57 +369,60 @@ static int vf_op(cstl_map_t * m, int kind, int i, int t, int use_it)
             MA(r == -1, "insert: allocation failure returns -1");
             MA(vf_mallocs == m0 + 1, "insert: one allocation attempt");
             if (use_it) {
-                MA(cstl_map_iterator_eq(&it, cstl_map_iterator_end(m)), "insert: allocation failure yields the end iterator");
+                MA(cstl_map_iterator_eq(&it, cstl_map_iterator_end(&vf_m)), "insert: allocation failure yields the end iterator");
                 MA(it.key == NULL && it.val == NULL, "insert: allocation failure: the iterator carries no key or value");
             }
         } else {
             MA(r == 0, "insert: a new key returns 0");
             MA(vf_mallocs == m0 + 1 && vf_last_blk >= 0, "insert: a new key allocates exactly one node");
-            if (r != 0 || vf_last_blk < 0) return 1;
-            vf_present[i] = 1; vf_skey[i] = key; vf_sval[i] = val; vf_nodeof[i] = vf_last_blk;
-            if (use_it) {
-                MA(it.key == key && it.val == val, "insert: new key: the iterator carries the given key and value pointers");
-                MA(it._ == (void *)vf_blk[vf_last_blk], "insert: new key: the iterator refers to the new entry");
+            if (r == 0 && vf_last_blk >= 0) {
+                vf_present[i] = 1; vf_skey[i] = key; vf_sval[i] = val; vf_nodeof[i] = vf_last_blk;
+                if (use_it) {
+                    MA(it.key == key && it.val == val, "insert: new key: the iterator carries the given key and value pointers");
+                    MA(it._ == (void *)vf_blk[vf_last_blk], "insert: new key: the iterator refers to the new entry");
+                }
             }
         }
     } else if (kind == OP_ERASE) {
-        r = cstl_map_erase(m, &P[i], use_it ? &it : NULL);
+        r = cstl_map_erase(&vf_m, &P[i], use_it ? &it : NULL);
         MA(vf_mallocs == m0, "erase: allocates nothing");
         if (vf_present[i]) {
             MA(r == 0, "erase: a present key returns 0");
             MA(vf_frees == f0 + 1 && vf_last_freed == vf_nodeof[i], "erase: releases exactly the node of the entry");
             if (use_it) {
                 MA(it.key == vf_skey[i] && it.val == vf_sval[i], "erase: reports the stored key and value pointers of the removed entry");
-                MA(cstl_map_iterator_eq(&it, cstl_map_iterator_end(m)), "erase: the reported iterator compares equal to end");
+                MA(cstl_map_iterator_eq(&it, cstl_map_iterator_end(&vf_m)), "erase: the reported iterator compares equal to end");
             }
             vf_present[i] = 0; vf_nodeof[i] = -1;
         } else {
             MA(r == -1, "erase: an absent key returns -1");
             MA(vf_frees == f0, "erase: an absent key releases nothing");
             if (use_it) {
-                MA(cstl_map_iterator_eq(&it, cstl_map_iterator_end(m)), "erase: an absent key yields the end iterator");
+                MA(cstl_map_iterator_eq(&it, cstl_map_iterator_end(&vf_m)), "erase: an absent key yields the end iterator");
                 MA(it.key == NULL && it.val == NULL, "erase: absent key: the iterator carries no key or value");
             }
         }
     } else if (kind == OP_ERASE_IT) {
         cstl_map_iterator_t it2;
-        if (!vf_present[i]) return 0;
-        cstl_map_find(m, &K2[i], &it);
-        MA(!cstl_map_iterator_eq(&it, cstl_map_iterator_end(m)), "find: a present key is found");
+        MA(vf_present[i], "harness: erase by iterator only of a present key");
+        if (!vf_present[i]) return;
+        cstl_map_find(&vf_m, &K2[i], &it);
+        MA(!cstl_map_iterator_eq(&it, cstl_map_iterator_end(&vf_m)), "find: a present key is found");
         MA(it.key == vf_skey[i] && it.val == vf_sval[i], "find: yields the stored key and value pointers");
         MA(it._ == (void *)vf_blk[vf_nodeof[i]], "find: the iterator refers to the node of the entry");
         /* hand the iterator back with the address known to the harness (asserted equal above) */
         it2.key = it.key; it2.val = it.val; it2._ = vf_blk[vf_nodeof[i]];
-        cstl_map_erase_iterator(m, &it2);
+        cstl_map_erase_iterator(&vf_m, &it2);
         MA(vf_mallocs == m0, "erase by iterator: allocates nothing");
         MA(vf_frees == f0 + 1 && vf_last_freed == vf_nodeof[i], "erase by iterator: releases exactly the node of the entry");
         vf_present[i] = 0; vf_nodeof[i] = -1;
     } else {
-        vf_check_find(m, i, &K2[i]);
+        vf_check_find(i, &K2[i]);
         MA(vf_mallocs == m0 && vf_frees == f0, "find: allocates and releases nothing");
     }
-    vf_check(m);
-    return 1;
+    if (check) {
+        vf_check();
+    }
 }
 
 /* ------------------------------------------------------------------ clear */
@@ -387,11 +433,9 @@ static void vf_clr(void * e, void * p)
     int kv;
     MA(p == &vf_clr_cookie, "clear: the callback receives the private pointer given to clear");
     MA(it->_ == NULL, "clear: the callback gets a detached iterator");
-    MA(it->key != NULL, "clear: the callback gets a key");
-    if (it->key == NULL) return;
-    kv = *(const int *)it->key;
-    MA(kv >= 0 && kv < VF_NKMAX && vf_present[kv], "clear: the callback gets an entry of the map");
-    if (!(kv >= 0 && kv < VF_NKMAX)) return;
+    kv = vf_key_index(it->key);
+    MA(kv >= 0 && vf_present[kv], "clear: the callback gets an entry of the map");
+    if (kv < 0) return;
     MA(it->key == vf_skey[kv] && it->val == vf_sval[kv], "clear: the callback gets the stored key and value pointers of the entry");
     MA(!vf_clr_seen[kv], "clear: each entry is handed over at most once");
     MA(vf_live[vf_nodeof[kv]], "clear: the node of the entry is still allocated when the callback runs");
@@ -403,7 +447,7 @@ static void vf_clr(void * e, void * p)
 static void vf_audit(void)
 {
     MA(vf_live_n == 0, "map: everything the map allocated has been released");
-    MA(vf_frees + (vf_fail_at >= 0 && vf_mallocs > vf_fail_at ? 1 : 0) == vf_mallocs, "map: one free per successful allocation");
+    MA(vf_frees + vf_failed == vf_mallocs, "map: one free per successful allocation");
 #ifdef VF_ARENA
     {
         int k;
@@ -416,36 +460,87 @@ static void vf_audit(void)
 }
 
 /* clear (with or without callback), compare with the model, show the map is usable, release everything */
-static void vf_finish(cstl_map_t * m, int with_cb)
+static void vf_finish(int with_cb)
 {
-    int i, n = 0;
+    int i;
+    const int n = vf_count();
     const int f0 = vf_frees, m0 = vf_mallocs;
-    for (i = 0; i < VF_NKMAX; i++) { n += vf_present[i]; vf_clr_seen[i] = 0; }
+    for (i = 0; i < VF_NKMAX; i++) vf_clr_seen[i] = 0;
     vf_clr_n = 0;
-    cstl_map_clear(m, with_cb ? vf_clr : NULL, &vf_clr_cookie);
+    cstl_map_clear(&vf_m, with_cb ? vf_clr : NULL, &vf_clr_cookie);
     if (with_cb) {
         MA(vf_clr_n == n, "clear: the callback runs exactly once per entry");
         for (i = 0; i < VF_NKMAX; i++) MA(vf_clr_seen[i] == vf_present[i], "clear: every entry (and nothing else) was handed over");
     }
-    MA(vf_frees == f0 + n && vf_mallocs == m0, "clear: releases exactly one node per entry");
+    MA(vf_frees == f0 + n && vf_mallocs == m0, "clear: releases exactly one node per entry, allocates nothing");
     for (i = 0; i < VF_NKMAX; i++) { vf_present[i] = 0; vf_nodeof[i] = -1; }
-    MA(cstl_map_size(m) == 0 && m->t.t.root == NULL, "clear: the map is empty");
-    vf_check(m);
+    MA(cstl_map_size(&vf_m) == 0 && vf_m.t.t.root == NULL, "clear: the map is empty");
+    vf_check();
     vf_audit();
-    /* still usable */
-    vf_op(m, OP_INS2, 1, 10, 1);
-    vf_op(m, OP_INS, 0, 11, 0);
-    vf_op(m, OP_INS, 1, 12, 1);
-    vf_op(m, OP_ERASE, 1, 13, 1);
-    cstl_map_clear(m, NULL, NULL);
+    /* still usable: (a failure injected but not yet consumed may hit one of these inserts: vf_op knows) */
+    vf_op(OP_INS2, 1, 10, 1, 1);
+    vf_op(OP_INS, 0, 11, 0, 1);
+    vf_op(OP_INS, 1, 12, 1, 0);
+    vf_op(OP_ERASE, 1, 13, 0, 1);
+    cstl_map_clear(&vf_m, NULL, NULL);
     vf_present[0] = 0; vf_nodeof[0] = -1;
-    vf_check(m);
+    vf_check();
     vf_audit();
 }
 
-/* ------------------------------------------------------------------ B1: all operation scripts */
+/* ------------------------------------------------------------------ saved states (arena only) */
+#ifdef VF_ARENA
+struct vf_snap {
+    struct cstl_map_node blk[VF_NBLK];
+    cstl_map_t m;
+    int live[VF_NBLK], used[VF_NBLK];
+    int present[VF_NKMAX], nodeof[VF_NKMAX];
+    const void * skey[VF_NKMAX];
+    void * sval[VF_NKMAX];
+    int mallocs, frees, failed, live_n, last_blk, last_freed;
+};
+#define VF_MAXDEPTH 7
+static struct vf_snap vf_snaps[VF_MAXDEPTH + 1];
+
+static void vf_save(struct vf_snap * s)
+{
+    int k;
+    for (k = 0; k < VF_NBLK; k++) { s->blk[k] = *vf_blk[k]; s->live[k] = vf_live[k]; s->used[k] = vf_used[k]; }
+    for (k = 0; k < VF_NKMAX; k++) { s->present[k] = vf_present[k]; s->nodeof[k] = vf_nodeof[k]; s->skey[k] = vf_skey[k]; s->sval[k] = vf_sval[k]; }
+    s->m = vf_m;
+    s->mallocs = vf_mallocs; s->frees = vf_frees; s->failed = vf_failed; s->live_n = vf_live_n; s->last_blk = vf_last_blk; s->last_freed = vf_last_freed;
+}
+static void vf_restore(const struct vf_snap * s)
+{
+    int k;
+    for (k = 0; k < VF_NBLK; k++) { *vf_blk[k] = s->blk[k]; vf_live[k] = s->live[k]; vf_used[k] = s->used[k]; }
+    for (k = 0; k < VF_NKMAX; k++) { vf_present[k] = s->present[k]; vf_nodeof[k] = s->nodeof[k]; vf_skey[k] = s->skey[k]; vf_sval[k] = s->sval[k]; }
+    vf_m = s->m;
+    vf_mallocs = s->mallocs; vf_frees = s->frees; vf_failed = s->failed; vf_live_n = s->live_n; vf_last_blk = s->last_blk; vf_last_freed = s->last_freed;
+}
+/* the concrete state (every arena node that was ever used, the map object, the allocation flags, the model)
+ * equals the saved one; the call counters are compared by the caller */
+static int vf_same_state(const struct vf_snap * s)
+{
+    int k, same = 1;
+    for (k = 0; k < VF_NBLK; k++) {
+        same = same && s->live[k] == vf_live[k] && s->used[k] == vf_used[k];
+        if (vf_used[k]) {
+            same = same && s->blk[k].key == vf_blk[k]->key && s->blk[k].val == vf_blk[k]->val && s->blk[k].n.c == vf_blk[k]->n.c &&
+                   s->blk[k].n.n.p == vf_blk[k]->n.n.p && s->blk[k].n.n.l == vf_blk[k]->n.n.l && s->blk[k].n.n.r == vf_blk[k]->n.n.r;
+        }
+    }
+    for (k = 0; k < VF_NKMAX; k++) {
+        same = same && s->present[k] == vf_present[k] && s->nodeof[k] == vf_nodeof[k] && s->skey[k] == vf_skey[k] && s->sval[k] == vf_sval[k];
+    }
+    same = same && s->m.t.t.root == vf_m.t.t.root && s->m.t.t.size == vf_m.t.t.size && s->m.t.t.off == vf_m.t.t.off &&
+           s->m.t.t.cmp.func == vf_m.t.t.cmp.func && s->m.t.t.cmp.priv == vf_m.t.t.cmp.priv && s->m.t.off == vf_m.t.off &&
+           s->m.cmp.f == vf_m.cmp.f && s->m.cmp.p == vf_m.cmp.p && s->live_n == vf_live_n;
+    return same;
+}
+
 #ifndef VF_LEN
-#define VF_LEN 4
+#define VF_LEN 3
 #endif
 #define VF_NOPS (OP_KINDS * VF_NK)
 #ifndef VF_FIRST_LO
@@ -460,177 +555,174 @@ static void vf_finish(cstl_map_t * m, int with_cb)
 #ifndef VF_SECOND_HI
 #define VF_SECOND_HI (VF_NOPS - 1)
 #endif
+static int vf_nodes, vf_deepest, vf_noops, vf_failures;
+
+/* operation code = kind * VF_NK + key.  The node at `depth` is the current state. */
+static void vf_dfs(int depth, int do_noops, int do_fail, int do_finish)
+{
+    struct vf_snap * const s = &vf_snaps[depth];
+    int code;
+    vf_nodes++;
+    VF_SCEN(depth > 0);
+    if (depth > vf_deepest) vf_deepest = depth;
+    vf_save(s);
+    if (do_finish) {
+        vf_finish(1);
+        vf_restore(s);
+    }
+    if (depth >= VF_LEN) {
+        return;
+    }
+    for (code = 0; code < VF_NOPS; code++) {
+        const int kind = code / VF_NK, i = code % VF_NK;
+        if (!vf_changing(kind, i)) {
+            int use_it;
+            if (kind == OP_ERASE_IT || !do_noops) continue;    /* no iterator to an absent key */
+            /* result as specified, and the complete state stays as it was */
+            for (use_it = 1; use_it >= (kind == OP_FIND ? 1 : 0); use_it--) {
+                vf_op(kind, i, depth, use_it, 0);
+                MA(vf_same_state(s), "insert of a present key / erase of an absent key / find leave the map, every node and the allocator exactly as they were");
+                MA(vf_mallocs == s->mallocs && vf_frees == s->frees, "insert of a present key / erase of an absent key / find neither allocate nor release");
+                vf_noops++;
+            }
+            continue;
+        }
+        if (do_fail && (kind == OP_INS || kind == OP_INS2)) {
+            /* C16: the allocation of this insert fails */
+            vf_fail_at = vf_mallocs;
+            vf_op(kind, i, depth, 1, 1);
+            MA(vf_failed == s->failed + 1 && vf_mallocs == s->mallocs + 1 && vf_frees == s->frees, "failed insert: exactly one (failed) allocation attempt, nothing released");
+            MA(vf_same_state(s), "failed insert: the map, every node and the allocator are exactly as they were");
+            vf_fail_at = vf_mallocs;
+            vf_op(kind, i, depth, 0, 1);
+            MA(vf_failed == s->failed + 2, "failed insert (no iterator requested): the allocation failed");
+            MA(vf_same_state(s), "failed insert (no iterator requested): the map, every node and the allocator are exactly as they were");
+            /* the map stays usable: the same insert goes through now, then everything is released */
+            vf_fail_at = -1;
+            vf_op(kind, i, depth, 1, 1);
+            MA(vf_present[i], "failed insert: the same insert succeeds afterwards");
+            vf_op((depth & 1) ? OP_ERASE : OP_ERASE_IT, i, depth, 1, 1);
+            vf_finish(1);
+            vf_failures++;
+            vf_restore(s);
+        }
+        if (depth == 0 && (code < VF_FIRST_LO || code > VF_FIRST_HI)) continue;
+        if (depth == 1 && (code < VF_SECOND_LO || code > VF_SECOND_HI)) continue;
+        vf_op(kind, i, depth, 1, 1);
+        vf_dfs(depth + 1, do_noops, do_fail, do_finish);
+        vf_restore(s);
+    }
+}
 
 #if defined(VF_B) && VF_B == 1
-/* every script of exactly VF_LEN operations (every shorter script is a prefix and is checked on the
- * way) whose first operation lies in [VF_FIRST_LO, VF_FIRST_HI]; operation code = kind * VF_NK + key */
-static int vf_scripts;
-static void vf_run_script(const int * ops, int len)
-{
-    cstl_map_t m;
-    int t;
-    vf_reset(&m);
-    vf_check(&m);
-    for (t = 0; t < len; t++) {
-        /* insert and erase get an iterator except at odd positions of scripts with an odd code sum */
-        if (!vf_op(&m, ops[t] / VF_NK, ops[t] % VF_NK, t, !((t & 1) && (ops[0] & 1)))) {
-            break;          /* not applicable: the script equals a shorter one */
-        }
-    }
-    vf_finish(&m, 1);
-    vf_scripts++;
-}
+/* C08: every script with at most VF_LEN state-changing operations (see the head of this file) */
 void h_b_script(void)
 {
-    int ops[5];
-    const int n1 = VF_LEN > 1 ? VF_NOPS : 1, n2 = VF_LEN > 2 ? VF_NOPS : 1, n3 = VF_LEN > 3 ? VF_NOPS : 1, n4 = VF_LEN > 4 ? VF_NOPS : 1;
-    for (ops[0] = VF_FIRST_LO; ops[0] <= VF_FIRST_HI; ops[0]++) {
-        for (ops[1] = (VF_LEN > 1 ? VF_SECOND_LO : 0); ops[1] < n1 && ops[1] <= VF_SECOND_HI; ops[1]++) {
-            for (ops[2] = 0; ops[2] < n2; ops[2]++) {
-                for (ops[3] = 0; ops[3] < n3; ops[3]++) {
-                    for (ops[4] = 0; ops[4] < n4; ops[4]++) {
-                        vf_run_script(ops, VF_LEN);
-                    }
-                }
-            }
-        }
-        VF_REACH(ops[0] == VF_FIRST_HI && vf_max_size >= (VF_LEN - 1 < VF_NK ? VF_LEN - 1 : VF_NK), "last first-operation exercised, fullest map reached");
-    }
+    vf_reset();
+    vf_check();
+    vf_dfs(0, 1, 0, 1);
+    VF_REACH(vf_deepest == VF_LEN && vf_max_size == (VF_LEN < VF_NK ? VF_LEN : VF_NK) && vf_noops > 0, "deepest scripts explored, fullest map reached");
+    vf_restore(&vf_snaps[0]);
+    vf_finish(0);
     VF_END();
 }
 #endif
+
+#if defined(VF_B) && VF_B == 3
+/* C16: at every state reached by at most VF_LEN - 1 state-changing operations, every insert of an absent key
+ * is run with its allocation failing */
+void h_b_fail(void)
+{
+    vf_reset();
+    vf_check();
+    vf_dfs(0, 0, 1, 0);
+    VF_REACH(vf_deepest == VF_LEN && vf_failures > 0, "deepest states explored, allocation failures injected");
+    vf_restore(&vf_snaps[0]);
+    vf_finish(1);
+    VF_END();
+}
+#endif
+
+#if defined(VF_B) && VF_B == 4
+/* insert VF_NK keys in every order whose first key is in [VF_FIRST_LO, VF_FIRST_HI], then erase them in every
+ * order (by key and by iterator alternating): the map ends empty without clear, nothing may be left allocated */
+static int vf_drained;
+static void vf_drain(int depth)
+{
+    struct vf_snap * const s = &vf_snaps[depth];
+    int i, any = 0;
+    vf_save(s);
+    for (i = 0; i < VF_NK; i++) {
+        if (!vf_present[i]) continue;
+        any = 1;
+        vf_op(((depth + i) & 1) ? OP_ERASE_IT : OP_ERASE, i, depth, 1, 1);
+        vf_drain(depth + 1);
+        vf_restore(s);
+    }
+    if (!any) {
+        MA(cstl_map_size(&vf_m) == 0 && vf_m.t.t.root == NULL, "drain: the map is empty after erasing every key");
+        vf_audit();
+        VF_SCEN(1);
+        vf_drained++;
+    }
+}
+void h_b_drain(void)
+{
+    int ins[VF_NKMAX], code, ncodes = 1, k, j;
+    for (k = 0; k < VF_NK; k++) ncodes *= VF_NK;
+    for (code = 0; code < ncodes; code++) {
+        int c = code, distinct = 1;
+        for (k = 0; k < VF_NK; k++) { ins[k] = c % VF_NK; c /= VF_NK; }
+        for (k = 0; k < VF_NK; k++) for (j = 0; j < k; j++) if (ins[j] == ins[k]) distinct = 0;
+        if (!distinct || ins[0] < VF_FIRST_LO || ins[0] > VF_FIRST_HI) continue;
+        vf_reset();
+        for (k = 0; k < VF_NK; k++) vf_op((k & 1) ? OP_INS2 : OP_INS, ins[k], k, 1, 1);
+        vf_drain(0);
+        vf_finish(1);               /* the state is the full map again: clear it */
+    }
+    VF_REACH(vf_drained > 0 && vf_max_size == VF_NK, "full maps drained in every order");
+    VF_END();
+}
+#endif
+#endif /* VF_ARENA */
 
 /* ------------------------------------------------------------------ B2: clear on maps from every insertion order */
 #if defined(VF_B) && VF_B == 2
-#ifndef VF_ORD_N
-#define VF_ORD_N 4
+#ifndef VF_PASS
+#define VF_PASS 0
 #endif
-/* every sequence of 0..VF_ORD_N distinct keys out of VF_ORD_N, inserted in that order; then clear
- * with the recording callback (pass 0) or without callback (pass 1) */
+/* every sequence of 0..VF_NK distinct keys out of VF_NK, inserted in that order (every other insert without
+ * iterator, key objects alternating); then clear with the recording callback (VF_PASS 0) or without callback
+ * (VF_PASS 1), audit, reuse.  Runs linearly, so it also works on the real malloc/free. */
 static int vf_orders;
-static void vf_run_order(const int * seq, int len, int pass)
-{
-    cstl_map_t m;
-    int t;
-    vf_reset(&m);
-    for (t = 0; t < len; t++) {
-        vf_op(&m, (seq[t] + t) & 1 ? OP_INS2 : OP_INS, seq[t], t, !(t & 1));
-    }
-    vf_finish(&m, pass == 0);
-    vf_orders++;
-}
 void h_b_clear(void)
 {
-    int seq[6], len, pass;
-    for (pass = 0; pass < 2; pass++) {
-        for (len = 0; len <= VF_ORD_N; len++) {
-            /* odometer over sequences of distinct keys */
-            int code, ncodes = 1, k, j;
-            for (k = 0; k < len; k++) ncodes *= VF_ORD_N;
-            for (code = 0; code < ncodes; code++) {
-                int c = code, distinct = 1;
-                for (k = 0; k < len; k++) { seq[k] = c % VF_ORD_N; c /= VF_ORD_N; }
-                for (k = 0; k < len; k++) for (j = 0; j < k; j++) if (seq[j] == seq[k]) distinct = 0;
-                if (distinct) vf_run_order(seq, len, pass);
-            }
-            VF_REACH(pass == 1 && len == VF_ORD_N && vf_max_size == VF_ORD_N, "largest map cleared without callback");
-        }
-    }
-    VF_END();
-}
-#endif
-
-/* ------------------------------------------------------------------ B3: allocation failure at a chosen insert (C16) */
-#if defined(VF_B) && VF_B == 3
-#ifndef VF_FLEN
-#define VF_FLEN 3
-#endif
-/* scripts of VF_FLEN operations over {insert K[i], insert K2[i], erase i}; for every script every choice of
- * the failing allocation; after the script the failed insert is repeated (now it succeeds) */
-static int vf_failed_inserts;
-void h_b_fail(void)
-{
-    int ops[4], fail;
-    const int nops = 3 * VF_NK;
-    const int n1 = VF_FLEN > 1 ? nops : 1, n2 = VF_FLEN > 2 ? nops : 1, n3 = VF_FLEN > 3 ? nops : 1;
-    for (ops[0] = VF_FIRST_LO; ops[0] <= (VF_FIRST_HI < nops - 1 ? VF_FIRST_HI : nops - 1); ops[0]++) {
-        for (ops[1] = 0; ops[1] < n1; ops[1]++) {
-            for (ops[2] = 0; ops[2] < n2; ops[2]++) {
-                for (ops[3] = 0; ops[3] < n3; ops[3]++) {
-                    for (fail = 0; fail < VF_FLEN; fail++) {
-                        cstl_map_t m;
-                        int t, failed_t = -1;
-                        vf_reset(&m);
-                        vf_fail_at = fail;
-                        for (t = 0; t < VF_FLEN; t++) {
-                            const int kind = ops[t] / VF_NK, i = ops[t] % VF_NK;
-                            const int before = vf_mallocs;
-                            vf_op(&m, kind, i, t, 1);
-                            if (before == fail && vf_mallocs == fail + 1) failed_t = t;
-                        }
-                        if (failed_t < 0) {
-                            /* the script has fewer than fail+1 allocations: nothing failed; larger choices neither */
-                            MA(vf_mallocs <= fail, "harness: no failure only if the script allocates less often");
-                            vf_finish(&m, 1);
-                            break;
-                        }
-                        vf_failed_inserts++;
-                        /* the map stayed usable: the same insert now goes through (or meets the key inserted meanwhile) */
-                        vf_op(&m, ops[failed_t] / VF_NK, ops[failed_t] % VF_NK, 5, 1);
-                        vf_op(&m, ops[failed_t] / VF_NK, ops[failed_t] % VF_NK, 6, 0);
-                        vf_finish(&m, 1);
-                    }
-                }
-            }
-        }
-        VF_REACH(ops[0] == (VF_FIRST_HI < nops - 1 ? VF_FIRST_HI : nops - 1) && vf_failed_inserts > 0, "last first-operation exercised, an allocation failure was injected");
-    }
-    VF_END();
-}
-#endif
-
-/* ------------------------------------------------------------------ B4: build in every order, erase in every order */
-#if defined(VF_B) && VF_B == 4
-#ifndef VF_ORD_N
-#define VF_ORD_N 4
-#endif
-#ifndef VF_INS_LO
-#define VF_INS_LO 0
-#endif
-#ifndef VF_INS_HI
-#define VF_INS_HI 1000000
-#endif
-/* insert VF_ORD_N keys in every order, erase them in every order (by key / by iterator alternating):
- * the map ends empty without clear, nothing may be left allocated */
-void h_b_drain(void)
-{
-    int ins[6], era[6], ci, ce, k, j, nperm = 1, np = 0, reached = 0;
-    for (k = 0; k < VF_ORD_N; k++) nperm *= VF_ORD_N;
-    for (ci = 0; ci < nperm; ci++) {
-        int c = ci, distinct = 1;
-        for (k = 0; k < VF_ORD_N; k++) { ins[k] = c % VF_ORD_N; c /= VF_ORD_N; }
-        for (k = 0; k < VF_ORD_N; k++) for (j = 0; j < k; j++) if (ins[j] == ins[k]) distinct = 0;
-        if (!distinct) continue;
-        np++;
-        if (np - 1 < VF_INS_LO || np - 1 > VF_INS_HI) continue;
-        for (ce = 0; ce < nperm; ce++) {
-            cstl_map_t m;
-            int t;
-            c = ce; distinct = 1;
-            for (k = 0; k < VF_ORD_N; k++) { era[k] = c % VF_ORD_N; c /= VF_ORD_N; }
-            for (k = 0; k < VF_ORD_N; k++) for (j = 0; j < k; j++) if (era[j] == era[k]) distinct = 0;
+    int seq[VF_NKMAX], len;
+    for (len = 0; len <= VF_NK; len++) {
+        int code, ncodes = 1, k, j;
+        for (k = 0; k < len; k++) ncodes *= VF_NK;
+        for (code = 0; code < ncodes; code++) {
+            int c = code, distinct = 1, t;
+            for (k = 0; k < len; k++) { seq[k] = c % VF_NK; c /= VF_NK; }
+            for (k = 0; k < len; k++) for (j = 0; j < k; j++) if (seq[j] == seq[k]) distinct = 0;
             if (!distinct) continue;
-            vf_reset(&m);
-            for (t = 0; t < VF_ORD_N; t++) vf_op(&m, OP_INS, ins[t], t, 1);
-            for (t = 0; t < VF_ORD_N; t++) vf_op(&m, (t + ce) & 1 ? OP_ERASE_IT : OP_ERASE, era[t], t, 1);
-            MA(cstl_map_size(&m) == 0, "drain: the map is empty after erasing every key");
-            vf_audit();
-            reached = 1;
+            vf_reset();
+            for (t = 0; t < len; t++) {
+                /* the full comparison follows the last insert: every proper prefix is a sequence of its own */
+                vf_op(((seq[t] + t) & 1) ? OP_INS2 : OP_INS, seq[t], t, !(t & 1), t == len - 1);
+            }
+            vf_finish(VF_PASS == 0);
+            VF_SCEN(len > 1);
+            vf_orders++;
         }
+        VF_REACH(len == VF_NK && vf_max_size == VF_NK, "largest map cleared");
     }
-    VF_REACH(reached && vf_max_size == VF_ORD_N, "every order drained");
     VF_END();
 }
+#endif
+
+#ifndef VF_NATIVE
+#pragma CPROVER check pop
 #endif
 
 #ifdef VF_NATIVE
